@@ -291,6 +291,11 @@ def callStatus (c : Nat) (cs : CompSpec) (d d' : List Item) : Status :=
   else if d.length < d'.length then .connecting
   else .idle
 
+/-- one `ConnectHelper.connect` call of component `c` on the exchanged set `d` and the caches:
+    new exchanged set, new caches, returned status -/
+def connectCall (S : Spec) (c : Nat) (cs : CompSpec) (d cache : List Item) : List Item × List Item × Status :=
+  (callDone S c cs d cache, callCache S c cs d cache, callStatus c cs d (callDone S c cs d cache))
+
 /-! ### `Composition._connect_components` -/
 
 structure LogEntry where
